@@ -1063,7 +1063,7 @@ def run(ctx: Context):
     # ---- 5. call-site chains ---------------------------------------------------
     with ctx.rule("C17.5", "R6/E6", "lease-secret chain at its call sites: SecretHolder hashes the lease secret read "
                   "from private/secret; upload and mutable filenode hash it with the file's storage index and then "
-                  "with the server's lease seed; renew/cancel reach allocate_buckets unswapped", expected=13) as r:
+                  "with the server's lease seed; renew/cancel reach allocate_buckets / add_lease unswapped", expected=18) as r:
         # SecretHolder
         SH = "client:SecretHolder"
         init = idx.func(SH + ".__init__")
@@ -1190,6 +1190,48 @@ def run(ctx: Context):
             got = [attr_path(a) for a in c.args[:3]]
             r.require(got == ["self.storage_index", "self.renew_secret", "self.cancel_secret"], q, q.loc(c),
                       "allocate_buckets is given %s ; specified (storage_index, renew_secret, cancel_secret)" % got)
+
+        # immutable checker (add-lease while checking)
+        CK = "immutable.checker:Checker"
+        cki = idx.func(CK + ".__init__")
+        if "secret_holder" not in cki.params:
+            raise AnchorVanished("Checker.__init__ parameter secret_holder")
+        for attr, want in (
+            ("self.file_renewal_secret", H("file_renewal_secret_hash", L("secret_holder.get_renewal_secret()"),
+                                           L("self._verifycap.get_storage_index()"))),
+            ("self.file_cancel_secret", H("file_cancel_secret_hash", L("secret_holder.get_cancel_secret()"),
+                                          L("self._verifycap.get_storage_index()"))),
+        ):
+            sc = store_chains(idx, cki, attr)
+            if not sc:
+                raise AnchorVanished("Checker.__init__ does not store %s" % attr)
+            for n, c in sc:
+                r.site(cki, n.ast, attr)
+                r.require(c == want, cki, cki.loc(n.ast), "%s = %s ; specified %s" % (attr, show_chain(c), show_chain(want)))
+        for meth, hname, attr in (("_get_renewal_secret", "bucket_renewal_secret_hash", "self.file_renewal_secret"),
+                                  ("_get_cancel_secret", "bucket_cancel_secret_hash", "self.file_cancel_secret")):
+            fn = idx.func(CK + "." + meth)
+            sp = first_positional_params(fn)[0]
+            rc = return_chains(idx, fn)
+            if not rc:
+                raise AnchorVanished("%s returns nothing" % meth)
+            for n, c in rc:
+                r.site(fn, n.ast)
+                want = H(hname, L(attr), ("leaf", sp))
+                r.require(c == want, fn, fn.loc(n.ast), "%s returns %s ; specified %s" % (short(fn), show_chain(c), show_chain(want)))
+        gb = idx.func(CK + "._get_buckets")
+        gbp = first_positional_params(gb)
+        gbn = FlowNorm(gb)
+        als = calls_in_func(gb, "add_lease")
+        if not als:
+            raise AnchorVanished("Checker._get_buckets does not call add_lease")
+        for c in als:
+            node = [n for n in gb.cfg().nodes if any(x is c for x in node_calls(n))][0]
+            r.site(gb, c, "add_lease")
+            got = [gbn.norm(node, a) for a in c.args[:3]]
+            want = [gbp[1], norm_src("self._get_renewal_secret(%s.get_lease_seed())" % gbp[0]),
+                    norm_src("self._get_cancel_secret(%s.get_lease_seed())" % gbp[0])]
+            r.require(got == want, gb, gb.loc(c), "add_lease(%s) ; specified add_lease(%s)" % (", ".join(got), ", ".join(want)))
 
         # mutable filenode
         MF = "mutable.filenode:MutableFileNode"
